@@ -140,7 +140,11 @@ func parseIoLine(s string) (tx, rx []byte, ok bool) {
 func doCall(vd *vedirect.Vedirect, c Call, res *RunResult) (out string) {
 	defer func() {
 		if r := recover(); r != nil {
-			out = "PANIC"
+			if _, ok := r.(budgetExceeded); ok {
+				out = "HANG"
+			} else {
+				out = "PANIC"
+			}
 		}
 	}()
 	switch c.Kind {
@@ -256,6 +260,9 @@ func RunScenario(sc *Scenario) *RunResult {
 			res.Panicked = true
 			res.Violations = append(res.Violations, fmt.Sprintf("call %d (%s) panicked", i, callName(c)))
 		}
+		if out == "HANG" {
+			res.Violations = append(res.Violations, fmt.Sprintf("call %d (%s) does not terminate: more than %d port operations on a finite byte stream", i, callName(c), opBudget))
+		}
 		if (c.Sleep || i == 0) && port.NW > wFrom && bits[0] != '1' {
 			res.Violations = append(res.Violations, fmt.Sprintf("call %d (%s): first attempt after >=100ms idle (or construction) did not flush the receiver", i, callName(c)))
 		}
@@ -291,6 +298,30 @@ func RunScenario(sc *Scenario) *RunResult {
 		}
 		res.Lines = append(res.Lines, [2][]byte{tx, rx})
 		ls = append(ls, HEX(tx)+":"+HEX(rx))
+	}
+	// C18: with the I/O logger and typed calls only, the tx parts of the lines are exactly the bytes written
+	if sc.Cfg&2 != 0 {
+		typedOnly := true
+		for _, c := range sc.Calls {
+			if c.Kind == "raw" || c.Kind == "cmd" {
+				typedOnly = false
+			}
+		}
+		if typedOnly {
+			var tx, wr []byte
+			for _, l := range res.Lines {
+				tx = append(tx, l[0]...)
+			}
+			for _, w := range port.Written {
+				wr = append(wr, w...)
+			}
+			if string(tx) != string(wr) {
+				res.Violations = append(res.Violations, fmt.Sprintf("io log tx %q differs from the bytes written %q", tx, wr))
+			}
+			if len(res.Lines) != len(sc.Calls) {
+				res.Violations = append(res.Violations, fmt.Sprintf("%d io log lines for %d typed calls", len(res.Lines), len(sc.Calls)))
+			}
+		}
 	}
 	ws := make([]string, len(port.Written))
 	for i, w := range port.Written {
